@@ -188,7 +188,11 @@ func (p *Proxy) ConnectDest(ctx context.Context, newDestURL *url.URL) error {
 	p.destURL.Store(newDestURL)
 	p.destMap.Store(newDest)
 
-	p.pipe.SetDest(newDest)
+	// the direction of the pipe that ended with the failed destination is finished for good
+	// (a finished task cannot be started again): relay over a fresh pipe
+	<-p.pipe.StopSourceToDest()
+	<-p.pipe.StopDestToSource()
+	p.pipe = NewPipe(p.source, newDest, p.pipe.sourceInterceptor, p.pipe.destInterceptor, p.log)
 
 	p.pipe.StartSourceToDest(ctx)
 	p.pipe.StartDestToSource(ctx)
